@@ -1,5 +1,8 @@
 import Abyss.Props.C03
 import Abyss.Props.C02
+import Abyss.Props.C03Snapshot
+#print axioms Abyss.C03_snapshot_opens
+#print axioms Abyss.Buf.C03_crash_image
 #print axioms Abyss.Buf.C03_durable
 #print axioms Abyss.Buf.C03_fresh
 #print axioms Abyss.Buf.C03_sync_events
